@@ -1217,6 +1217,7 @@ run_rep(void *arg)
 }
 
 // =============================================================================
+static double g_exec, g_wall;
 static void
 explore(const char *name, void (*fn)(void *), void *arg)
 {
@@ -1230,11 +1231,23 @@ explore(const char *name, void (*fn)(void *), void *arg)
 		c.budget[i] = 0;
 	c.budget[VB_ENV] = -1;
 	c.total          = 0;
-	vx_explore(&c, NULL);
+	vx_stats st;
+	memset(&st, 0, sizeof(st));
+	vx_explore(&c, &st);
+	g_exec += st.executions;
+	g_wall += st.wall_s;
+}
+
+// enough time left for `need` executions at the rate measured so far?
+static int
+affordable(double need)
+{
+	double rate = (g_exec > 2000 && g_wall > 1) ? g_exec / g_wall : 600;
+	return vx_time_left() > 30 + 1.4 * need / rate;
 }
 
 static void
-explore_race(const char *name, int mode, int p, int sw, int io)
+explore_race(const char *name, int mode, int p, int sw, int io, int total)
 {
 	vx_cfg c;
 	memset(&c, 0, sizeof(c));
@@ -1249,7 +1262,7 @@ explore_race(const char *name, int mode, int p, int sw, int io)
 	c.budget[VB_IO]      = io;
 	c.budget[VB_WAKE1]   = 1;
 	c.budget[VB_ENV]     = -1;
-	c.total              = p + sw;
+	c.total              = total;
 	vx_explore(&c, NULL);
 }
 
@@ -1312,10 +1325,10 @@ main(int argc, char **argv)
 	add_req("P4", 0, INF, Q_NLETTER, ds, 3, QP4);
 	add_req("P0", 1, INF, Q_NLETTER, ds, 0, NULL);
 	if (T) {
-		add_req("P1", 0, RESEND, Q_NLETTER, ds, 2, QP1);
 		add_req("P5", 0, RESEND, Q_NLETTER, ds, 5, QP5);
-		add_req("P2", 1, RESEND, Q_NLETTER, ds, 3, QP2);
 		add_req("P0", 1, RESEND, Q_NLETTER - 2, 5, 0, NULL);
+		add_req("P1", 0, INF, Q_NLETTER, ds, 2, QP1);
+		add_req("P2", 1, RESEND, Q_NLETTER, ds, 3, QP2);
 	}
 
 	// seeded non-initial REP states
@@ -1327,28 +1340,31 @@ main(int argc, char **argv)
 	int dp  = T ? 6 : 4;
 	int dps = T ? 5 : 3;
 	add_rep("P0", 0, dp, 0, NULL);
-	add_rep("P0", 1, dp, 0, NULL);
+	add_rep("P0", 1, T ? 5 : 4, 0, NULL);
 	add_rep("P1", 0, dps, 4, PP1);
 	add_rep("P3", 1, dps, 4, PP3);
 	add_rep("P2", 0, dps - (T ? 1 : 0), 2, PP2);
-	if (T)
+	if (T) {
 		add_rep("P1", 1, dps - 1, 4, PP1);
+		add_rep("P0", 1, 6, 0, NULL);
+	}
 
 	int skipped = 0;
-	if (vx_time_left() > 60) {
+	{
+		// quick: <= 2 schedule deviations; thorough: <= 3 (queued reply,
+		// which also has I/O choice points) / <= 4
 		int p = T ? 2 : 1, sw = T ? 2 : 1;
-		explore_race("race-queued-reply", 0, p, sw, 1);
-		explore_race("race-reply-cancel", 1, p, sw, 0);
-		explore_race("race-reply-send", 2, p, sw, 0);
-	} else
-		skipped += 3;
+		explore_race("race-queued-reply", 0, p, sw, 1, T ? 3 : 2);
+		explore_race("race-reply-cancel", 1, p, sw, 0, T ? 4 : 2);
+		explore_race("race-reply-send", 2, p, sw, 0, T ? 4 : 2);
+	}
 	// interleave so that both sides are covered even if the deadline hits
 	for (int i = 0; i < nqc || i < npc; i++) {
 		if (i < nqc) {
 			double need = 1;
 			for (int k = 0; k < QC[i].depth; k++)
 				need *= QC[i].nal;
-			if (vx_time_left() < 20 + need / 700.0)
+			if (!affordable(need))
 				skipped++;
 			else
 				explore(QC[i].name, run_req, &QC[i]);
@@ -1357,7 +1373,7 @@ main(int argc, char **argv)
 			double need = 1;
 			for (int k = 0; k < PC[i].depth; k++)
 				need *= P_NLETTER;
-			if (vx_time_left() < 20 + need / 700.0)
+			if (!affordable(need))
 				skipped++;
 			else
 				explore(PC[i].name, run_rep, &PC[i]);
@@ -1375,7 +1391,7 @@ main(int argc, char **argv)
 	    "answers and drains every request",
 	    P_NLETTER);
 	vx_note("bounds", "req depth %d (seeded %d), rep depth %d (seeded %d), "
-	                  "scenarios skipped for time: %d",
-	    dq, ds, dp, dps, skipped);
+	                  "scenarios skipped for time: %d of %d",
+	    dq, ds, dp, dps, skipped, nqc + npc);
 	return vx_finish();
 }
